@@ -1,0 +1,33 @@
+// Copyright 2024 Marc-Antoine Ruel. All rights reserved.
+// Use of this source code is governed under the Apache License, Version 2.0
+// that can be found in the LICENSE file.
+
+//go:build verif
+
+// Package verifhook re-exports the verification hooks of package internal to
+// code outside of this module. It is empty without -tags verif.
+package verifhook
+
+import (
+	"io"
+	"regexp"
+
+	"github.com/maruel/panicparse/v2/internal"
+	"github.com/maruel/panicparse/v2/stack"
+)
+
+// WriteBuckets prints an aggregation the way pp does.
+func WriteBuckets(out io.Writer, color bool, a *stack.Aggregated, pf int, filter, match *regexp.Regexp) error {
+	return internal.VerifWriteBuckets(out, color, a, pf, filter, match)
+}
+
+// WriteGoroutines prints the goroutines of a snapshot the way pp does for a
+// race report.
+func WriteGoroutines(out io.Writer, color bool, s *stack.Snapshot, pf int, filter, match *regexp.Regexp) error {
+	return internal.VerifWriteGoroutines(out, color, s, pf, filter, match)
+}
+
+// Process is pp's stream loop.
+func Process(in io.Reader, out io.Writer, color bool, s stack.Similarity, pf int, parse, rebase bool, filter, match *regexp.Regexp) error {
+	return internal.VerifProcess(in, out, color, s, pf, parse, rebase, filter, match)
+}
